@@ -31,6 +31,7 @@
 #include <unordered_map>
 #include <utility>
 #include <vector>
+#include <dlfcn.h>
 #include <errno.h>
 #include <pthread.h>
 #include <string.h>
@@ -73,6 +74,28 @@ static long long realNowNs(clockid_t c)
   struct timespec ts;
   real_clock_gettime(c, &ts);
   return ts.tv_sec * 1000000000LL + ts.tv_nsec;
+}
+
+// Timed waits on condition variables (libstdc++ uses pthread_cond_clockwait(CLOCK_MONOTONIC) for steady_clock deadlines) are
+// given a REAL deadline: the virtual deadline minus the virtual now, from the real now.  Virtual time only moves between ops,
+// so a timed wait inside the code under test ends after the same span of real time instead of "never" (a notify that races the
+// wait - stopTickThread() stores the flag and notifies without the mutex - would otherwise block the join for ever).
+extern "C" int pthread_cond_clockwait(pthread_cond_t* c, pthread_mutex_t* m, clockid_t clk, const struct timespec* abstime)
+{
+  using Fn = int (*)(pthread_cond_t*, pthread_mutex_t*, clockid_t, const struct timespec*);
+  static Fn real = reinterpret_cast<Fn>(dlsym(RTLD_NEXT, "pthread_cond_clockwait"));
+  if (clk == CLOCK_MONOTONIC && g_virtual.load(std::memory_order_acquire))
+  {
+    long long vnow = g_base_ns.load(std::memory_order_relaxed) + g_vns.load(std::memory_order_relaxed);
+    long long rel = abstime->tv_sec * 1000000000LL + abstime->tv_nsec - vnow;
+    if (rel < 0) rel = 0;
+    long long r = realNowNs(CLOCK_MONOTONIC) + rel;
+    struct timespec ts;
+    ts.tv_sec = r / 1000000000LL;
+    ts.tv_nsec = r % 1000000000LL;
+    return real(c, m, clk, &ts);
+  }
+  return real(c, m, clk, abstime);
 }
 
 // ---------------------------------------------------------------------------------------------- stepping the loop thread
@@ -136,7 +159,7 @@ static void watchdog()
     struct timespec ts{0, 50000000};
     nanosleep(&ts, nullptr);
     long long s = g_op_started_ns.load(std::memory_order_acquire);
-    if (s != 0 && realNowNs(CLOCK_REALTIME) - s > 10000000000LL)
+    if (s != 0 && realNowNs(CLOCK_REALTIME) - s > 12000000000LL)
     {
       std::fflush(stdout);
       std::fputs("hang\n", stdout);
@@ -201,6 +224,7 @@ struct S
       g_cv.notify_all();
     }
     for (auto& h : hs) if (h->id) svc->cancel(h->id);   // nothing live: stop()'s internal drain completes at once
+    g_vns.fetch_add(6000000000LL);   // whatever a (mutated) cancel left behind is due or beyond the drain horizon now
     delete svc.release();
     raw = nullptr;
     hs.clear();
@@ -383,7 +407,9 @@ int main()
     g_op_started_ns.store(0, std::memory_order_release);
     return out;
   });
+  g_op_started_ns.store(realNowNs(CLOCK_REALTIME), std::memory_order_release);   // the final teardown is watched too
   st.teardown();
+  g_op_started_ns.store(0, std::memory_order_release);
   std::fprintf(stderr, "epoll_parks=%lu\n", g_epoll_parks);
   return rc;
 }
